@@ -41,6 +41,10 @@ type c11Set struct {
 	maxErr int
 	maxUnz int
 	za     bool
+	// addr: nil = every instance has its own address; otherwise an address label per instance
+	// (equal labels = same Addr, -1 = empty Addr). Instances are always identified by their Id
+	// (= global index), never by their address.
+	addr []int
 }
 
 type c11Case struct {
@@ -95,6 +99,17 @@ func (c *c11Case) fields() (cmd, opts, sets, script string) {
 	ss := make([]string, len(c.sets))
 	for i, s := range c.sets {
 		ss[i] = fmt.Sprintf("%s:e%d:u%d:a%s", c11Ints(s.zones), s.maxErr, s.maxUnz, b2i(s.za))
+		if s.addr != nil {
+			lab := make([]string, len(s.addr))
+			for j, a := range s.addr {
+				if a < 0 {
+					lab[j] = "e"
+				} else {
+					lab[j] = itoa(a)
+				}
+			}
+			ss[i] += ":d" + strings.Join(lab, ",")
+		}
 	}
 	sets = strings.Join(ss, "|")
 	ca := "-"
@@ -371,8 +386,16 @@ func c11Run(cs *c11Case) string {
 	g := 0
 	for si, s := range cs.sets {
 		rs := ring.ReplicationSet{MaxErrors: s.maxErr, MaxUnavailableZones: s.maxUnz, ZoneAwarenessEnabled: s.za}
-		for _, z := range s.zones {
-			rs.Instances = append(rs.Instances, ring.InstanceDesc{Id: itoa(g), Addr: "addr-" + itoa(g), Zone: "zone-" + itoa(z)})
+		for j, z := range s.zones {
+			addr := "addr-" + itoa(g)
+			if s.addr != nil {
+				if s.addr[j] < 0 {
+					addr = ""
+				} else {
+					addr = fmt.Sprintf("shared-%d-%d", si, s.addr[j])
+				}
+			}
+			rs.Instances = append(rs.Instances, ring.InstanceDesc{Id: itoa(g), Addr: addr, Zone: "zone-" + itoa(z)})
 			g++
 		}
 		rsets[si] = rs
@@ -539,6 +562,38 @@ func c11Distinct(zs []int) []int {
 	return o
 }
 
+// c11RandAddr gives about 40% of the sets with two or more instances duplicate addresses: all Addr
+// empty (only Id/Zone set), all instances behind one address, or 2-3 instances sharing one address.
+func c11RandAddr(r *rng, s *c11Set) {
+	n := len(s.zones)
+	if n < 2 || !r.chance(2, 5) {
+		return
+	}
+	s.addr = make([]int, n)
+	switch r.intn(4) {
+	case 0: // every Addr empty
+		for i := range s.addr {
+			s.addr[i] = -1
+		}
+	case 1: // one virtual address for all
+		for i := range s.addr {
+			s.addr[i] = 0
+		}
+	default: // 2-3 instances share an address, the others have their own
+		for i := range s.addr {
+			s.addr[i] = i + 1
+		}
+		p := c11Perm(r, n)
+		k := 2 + r.intn(2)
+		if k > n {
+			k = n
+		}
+		for _, i := range p[:k] {
+			s.addr[i] = 0
+		}
+	}
+}
+
 func c11RandSet(r *rng, maxN int) c11Set {
 	var n int
 	if maxN >= 6 {
@@ -564,6 +619,7 @@ func c11RandSet(r *rng, maxN int) c11Set {
 			s.zones = zz
 		}
 	}
+	c11RandAddr(r, &s)
 	z := len(c11Distinct(s.zones))
 	switch k := r.intn(100); {
 	case k < 45: // flat
@@ -728,7 +784,7 @@ func c11Perms(n int) [][]int {
 // tolerance (flat 0..n, zone-aware 0..zones), both variants, minimisation on/off, terminal
 // predicate on/off, every outcome assignment, every completion order, every cancellation point.
 // keep(i) subsamples.
-func c11Exhaustive(n int, keep func() bool, emit func(*c11Case)) {
+func c11Exhaustive(n int, keep func() bool, addr func(n int) []int, emit func(*c11Case)) {
 	perms := c11Perms(n)
 	for _, lay := range c11Layouts(n) {
 		z := len(c11Distinct(lay))
@@ -767,8 +823,11 @@ func c11Exhaustive(n int, keep func() bool, emit func(*c11Case)) {
 									if !keep() {
 										continue
 									}
-									emit(&c11Case{kind: kind, min: mn, term: tm, sets: []c11Set{{zones: lay, maxErr: tl.e, maxUnz: tl.u, za: tl.za}},
-										out: out, prio: p, cancelAt: ca})
+									set := c11Set{zones: lay, maxErr: tl.e, maxUnz: tl.u, za: tl.za}
+									if addr != nil {
+										set.addr = addr(n)
+									}
+									emit(&c11Case{kind: kind, min: mn, term: tm, sets: []c11Set{set}, out: out, prio: p, cancelAt: ca})
 								}
 							}
 						}
@@ -785,14 +844,37 @@ func c11Generate(e *env) []*c11Case {
 	rs := newRng(e.seed, 1100)
 	all := func() bool { return true }
 	sample := func(p, q int) func() bool { return func() bool { return rs.chance(p, q) } }
-	c11Exhaustive(1, all, add)
+	// address variant of an enumerated case: own addresses / all empty / one shared address / first two shared
+	addr := func(n int) []int {
+		if n < 2 {
+			return nil
+		}
+		a := make([]int, n)
+		switch rs.intn(5) {
+		case 0:
+			for i := range a {
+				a[i] = -1
+			}
+		case 1:
+			// all zero: one address for all
+		case 2:
+			for i := range a {
+				a[i] = i
+			}
+			a[1] = 0
+		default:
+			return nil
+		}
+		return a
+	}
+	c11Exhaustive(1, all, nil, add)
 	if e.quick {
-		c11Exhaustive(2, sample(1, 4), add)
-		c11Exhaustive(3, sample(1, 150), add)
+		c11Exhaustive(2, sample(1, 4), addr, add)
+		c11Exhaustive(3, sample(1, 150), addr, add)
 	} else {
-		c11Exhaustive(2, all, add)
-		c11Exhaustive(3, sample(1, 3), add)
-		c11Exhaustive(4, sample(1, 400), add)
+		c11Exhaustive(2, all, addr, add)
+		c11Exhaustive(3, sample(1, 3), addr, add)
+		c11Exhaustive(4, sample(1, 400), addr, add)
 	}
 	r := newRng(e.seed, 1101)
 	nrand := 9000 * e.scale
